@@ -257,3 +257,7 @@ func VerifC09_Twin() {
 	VerifC09_Hist()
 	verifAssert(false, "twin-false")
 }
+
+// larger bounds for the thorough tier
+func VerifC09_Hist8()       { verifC09Hist(8, false) }
+func VerifC09_HistResend6() { verifC09Hist(6, true) }
